@@ -9,14 +9,32 @@
 EXTENDS UserStore, Json
 
 CONSTANTS Depth,
-          FinalList   \* TRUE: the last step is a List (so a simulated trace prints exactly one behaviour)
+          FinalList,  \* TRUE: the last step is a List (so a simulated trace prints exactly one behaviour)
+          Mode        \* "all": every enabled call is a successor (BFS) ; "random": one call drawn per step (simulation)
 VARIABLE h
 
 Proj == Shown(abs, Mask)
 
+(* Random walk: TLC's simulator otherwise builds every successor (about 50) before picking one.  The bag   *)
+(* weights the kinds of call; \E over a singleton binds each drawn value once.                             *)
+KindBag == <<"Write", "Write", "Write", "Write", "Delete", "Delete", "SetPerm", "SetPerm", "SetPerm", "SetPerm",
+             "Read", "Read", "GetPerms", "List", "Flush", "Reopen", "Reopen", "Reopen">>
+RandomCall ==
+  \E k \in {RandomElement(1..Len(KindBag))} :
+    \/ KindBag[k] = "Write"    /\ \E n \in {RandomElement(Names)}, t \in {RandomElement(Templates)} : WriteUser(n, t)
+    \/ KindBag[k] = "Delete"   /\ \E n \in {RandomElement(Names)} : DeleteUser(n)
+    \/ KindBag[k] = "SetPerm"  /\ \E n \in {RandomElement(Names)}, p \in {RandomElement(GrantPerms)}, on \in {RandomElement(BOOLEAN)} :
+                                     SetPermission(n, p, on)
+    \/ KindBag[k] = "Read"     /\ \E n \in {RandomElement(Names)} : ReadUser(n)
+    \/ KindBag[k] = "GetPerms" /\ \E n \in {RandomElement(Names)} : GetPermissions(n)
+    \/ KindBag[k] = "List"     /\ ListUsers
+    \/ KindBag[k] = "Flush"    /\ Flush
+    \/ KindBag[k] = "Reopen"   /\ \E m \in {RandomElement(ReopenModes)} : Reopen(m[1], m[2])
+
 GenInit == Init /\ h = <<[call |-> last.call, reply |-> last.ra, st |-> Proj]>>
 GenNext == /\ Len(h) < Depth
-           /\ IF FinalList /\ Len(h) = Depth - 1 THEN ListUsers ELSE Next
+           /\ IF FinalList /\ Len(h) = Depth - 1 THEN ListUsers
+              ELSE IF Mode = "random" THEN RandomCall ELSE Next
            /\ h' = Append(h, [call |-> last'.call, reply |-> last'.ra, st |-> Proj'])
 GenSpec == GenInit /\ [][GenNext]_<<vars, h>>
 
